@@ -66,7 +66,7 @@ Lemma list_args_typed : forall args t,
   end = Some (TV t) ->
   Forall (fun a => ty_of a = Some (TV t)) args /\ (2 <= length args)%nat.
 Proof.
-  intros args t H. destruct args as [|a [|b r]]; cbn in H; try discriminate.
+  intros args t H. destruct args as [|a [|b r]]; cbn [map] in H; try discriminate.
   - destruct (ty_of a) as [[u| |]|]; discriminate.
   - destruct (ty_of a) as [[u| |]|] eqn:Ea; try discriminate.
     destruct (all_same u (ty_of b :: map ty_of r)) eqn:Es; [|discriminate]. inversion H; subst.
@@ -106,13 +106,13 @@ Proof. intro c; exists c; reflexivity. Qed.
 
 Lemma reval_typed : forall k3 en e t, ty_of e = Some t -> env_ok en e = true -> val_ok (reval k3 en e) t.
 Proof.
-  intros k3 en e. induction e using expr_ind'; intros t Ht Hen; cbn [ty_of] in Ht; cbn [reval]; cbn [env_ok] in Hen.
+  intros k3 en e. induction e using expr_ind'; intros T0 Ht Hen; cbn [ty_of] in Ht; cbn [reval]; cbn [env_ok] in Hen.
   - (* attr *) inversion Ht; subst. cbn. apply andb_prop in Hen. tauto.
   - inversion Ht; subst; reflexivity.
   - inversion Ht; subst; reflexivity.
   - inversion Ht; subst; reflexivity.
   - inversion Ht; subst; reflexivity.
-  - (* param *) destruct t0 as [u|]; inversion Ht; subst; cbn.
+  - (* param *) destruct t as [u|]; inversion Ht; subst; cbn.
     + apply andb_prop in Hen; tauto.
     + destruct (param_val en i); cbn in Hen; try discriminate; reflexivity.
   - (* arith *)
@@ -125,34 +125,33 @@ Proof.
   - destruct (ty_of e) as [[[]| |]|]; try discriminate; inversion Ht; subst; cbn. destruct (reval k3 en e); reflexivity.
   - (* cmp *)
     destruct (ty_of e1) as [t1|], (ty_of e2) as [t2|]; try discriminate.
-    assert (t = TCond) by (unfold cmp_ty in Ht; destruct t1 as [[]| |], t2 as [[]| |], (is_identity op), (is_ordering op); cbn in Ht; congruence).
+    assert (T0 = TCond) by (unfold cmp_ty in Ht; destruct t1 as [[]| |], t2 as [[]| |], (is_identity op), (is_ordering op); cbn in Ht; congruence).
     subst. destruct t1 as [u1| |], t2 as [u2| |]; apply py_of_tv_ok.
-  - (* and *) destruct (ty_of e1), (ty_of e2); try discriminate. destruct (boolable t0 && boolable t1); inversion Ht; subst. apply py_of_tv_ok.
-  - destruct (ty_of e1), (ty_of e2); try discriminate. destruct (boolable t0 && boolable t1); inversion Ht; subst. apply py_of_tv_ok.
+  - (* and *) destruct (ty_of e1), (ty_of e2); try discriminate. destruct (boolable t && boolable t0); inversion Ht; subst. apply py_of_tv_ok.
+  - destruct (ty_of e1), (ty_of e2); try discriminate. destruct (boolable t && boolable t0); inversion Ht; subst. apply py_of_tv_ok.
   - (* not *) destruct (ty_of e) as [te|]; try discriminate. destruct (boolable te) eqn:B; inversion Ht; subst.
     destruct te as [u| |]; try discriminate; [exists (tv_of_bool (negb (truthy (reval k3 en e)))); destruct (negb _); reflexivity | apply py_of_tv_ok].
   - (* in *)
-    assert (t = TCond) by (destruct (ty_of e) as [[[]| |]|]; try discriminate;
+    assert (T0 = TCond) by (destruct (ty_of e) as [[[]| |]|]; try discriminate;
       match type of Ht with (if ?c then _ else _) = _ => destruct c end; congruence).
     subst. apply py_of_tv_ok.
   - (* if *)
     apply andb_prop in Hen; destruct Hen as [Hen H3]; apply andb_prop in Hen; destruct Hen as [H1 H2].
     destruct (ty_of e1) as [tc|]; try discriminate. destruct (ty_of e2) as [[x| |]|]; try (destruct tc as [[]| |]; discriminate).
     destruct (ty_of e3) as [[y| |]|]; try (destruct tc as [[]| |]; discriminate).
-    assert (E : vty_eqb x y = true /\ t = TV x).
+    assert (E : vty_eqb x y = true /\ T0 = TV x).
     { destruct tc as [[]| |]; try discriminate; destruct (vty_eqb x y); try discriminate; inversion Ht; tauto. }
     destruct E as [E ->]. apply vty_eqb_eq in E; subst y.
     destruct (truth3 k3 (Some tc) (reval k3 en e1)); [apply IHe2 | apply IHe3 | apply IHe3]; auto.
   - (* coalesce *)
-    destruct (list_args_typed _ _ Ht) as [Hall _]. assert (t = t) by reflexivity.
-    assert (exists u, t = TV u) as [u ->].
-    { destruct args as [|a [|b r]]; cbn in Ht; try discriminate. destruct (ty_of a) as [[u0| |]|]; try discriminate.
+    assert (exists u, T0 = TV u) as [u ->].
+    { destruct args as [|a [|b r]]; cbn [map] in Ht; try discriminate; [destruct (ty_of a) as [[u0| |]|]; discriminate|]. destruct (ty_of a) as [[u0| |]|]; try discriminate.
       destruct (all_same u0 (ty_of b :: map ty_of r)); inversion Ht. eauto. }
     destruct (list_args_typed _ _ Ht) as [Hall' _]. cbn. apply has_vty_first_some. rewrite Forall_map.
     rewrite Forall_forall in *. intros a Ha. rewrite forallb_forall in Hen. exact (H a Ha (TV u) (Hall' a Ha) (Hen a Ha)).
   - (* minmax *)
-    assert (exists u, t = TV u /\ u <> TBool /\ Forall (fun a => ty_of a = Some (TV u)) args) as [u [-> [Hu Hall]]].
-    { destruct args as [|a [|b r]]; cbn in Ht; try discriminate.
+    assert (exists u, T0 = TV u /\ u <> TBool /\ Forall (fun a => ty_of a = Some (TV u)) args) as [u [-> [Hu Hall]]].
+    { destruct args as [|a [|b r]]; cbn [map] in Ht; try discriminate.
       - destruct (ty_of a) as [[u0| |]|]; discriminate.
       - destruct (ty_of a) as [[u0| |]|] eqn:Ea; try discriminate. destruct u0; try discriminate.
         + destruct (all_same TInt (ty_of b :: map ty_of r)) eqn:Es; inversion Ht. exists TInt; split; [reflexivity|split; [discriminate|]].
@@ -173,7 +172,10 @@ Proof.
   - destruct v as [|z|s|b]; cbn; [destruct k3; split; discriminate| | |]; match goal with |- context [tv_of_bool ?c] => destruct c end; cbn; split; congruence.
 Qed.
 
-Definition is_cond (e : expr) : bool := match ty_of e with Some TCond => true | _ => false end.
+Lemma truth3_same : forall e v, cond_typed e || negb (is_none v) = true -> truth3 true (ty_of e) v = truth3 false (ty_of e) v.
+Proof.
+  intros e v H. unfold truth3, cond_typed in *. destruct (ty_of e) as [[u| |]|]; try reflexivity; destruct v; try reflexivity; discriminate.
+Qed.
 
 Lemma clean_same : forall en e, clean en e = true -> reval true en e = reval false en e.
 Proof.
@@ -186,13 +188,9 @@ Proof.
   - rewrite IHe by assumption. reflexivity.
   - rewrite IHe1, IHe2 by assumption. reflexivity.
   - (* and *)
-    rewrite <- IHe1, <- IHe2 by assumption. f_equal. f_equal.
-    + unfold truth3, value_typed in *. destruct (ty_of e1) as [[u| |]|]; try reflexivity; destruct (reval true en e1); try reflexivity; discriminate.
-    + unfold truth3, value_typed in *. destruct (ty_of e2) as [[u| |]|]; try reflexivity; destruct (reval true en e2); try reflexivity; discriminate.
+    rewrite <- IHe1, <- IHe2 by assumption. rewrite !truth3_same by assumption. reflexivity.
   - (* or *)
-    rewrite <- IHe1, <- IHe2 by assumption. f_equal. f_equal.
-    + unfold truth3, value_typed in *. destruct (ty_of e1) as [[u| |]|]; try reflexivity; destruct (reval true en e1); try reflexivity; discriminate.
-    + unfold truth3, value_typed in *. destruct (ty_of e2) as [[u| |]|]; try reflexivity; destruct (reval true en e2); try reflexivity; discriminate.
+    rewrite <- IHe1, <- IHe2 by assumption. rewrite !truth3_same by assumption. reflexivity.
   - rewrite IHe by assumption. reflexivity.
   - rewrite IHe by assumption. reflexivity.
   - (* if *)
@@ -202,30 +200,29 @@ Proof.
   - f_equal. apply map_ext_in. intros a Ha. rewrite Forall_forall in H. rewrite forallb_forall in Hc. auto.
 Qed.
 
+Lemma py_truthy_tv : forall e c, py_truthy e (py_of_tv c) = match c with T => true | _ => false end.
+Proof. intros e c. unfold py_truthy. destruct (ty_of e) as [[u| |]|], c; reflexivity. Qed.
+
 Lemma pos_ok_same : forall en e, pos_ok en e = true -> py_truthy e (reval true en e) = py_truthy e (reval false en e).
 Proof.
   intros en e. induction e using expr_ind'; intro Hp; cbn [pos_ok] in Hp;
     try (rewrite (clean_same en _ Hp); reflexivity).
   - (* and *)
     apply andb_prop in Hp; destruct Hp as [H1 H2]. specialize (IHe1 H1). specialize (IHe2 H2).
-    cbn [reval]. unfold py_truthy at 1 3. cbn [ty_of].
-    destruct (ty_of e1) as [t1|] eqn:E1, (ty_of e2) as [t2|] eqn:E2; try reflexivity.
-    destruct (boolable t1 && boolable t2); [|reflexivity].
+    cbn [reval]. rewrite !py_truthy_tv.
     pose proof (truth3_T_iff true e1 (reval true en e1)) as A1. pose proof (truth3_T_iff false e1 (reval false en e1)) as A2.
     pose proof (truth3_T_iff true e2 (reval true en e2)) as B1. pose proof (truth3_T_iff false e2 (reval false en e2)) as B2.
-    rewrite E1 in A1, A2. rewrite E2 in B1, B2. rewrite IHe1 in A1. rewrite IHe2 in B1.
-    destruct (truth3 true (Some t1) (reval true en e1)), (truth3 false (Some t1) (reval false en e1)),
-             (truth3 true (Some t2) (reval true en e2)), (truth3 false (Some t2) (reval false en e2)); cbn; try reflexivity;
+    rewrite IHe1 in A1. rewrite IHe2 in B1.
+    destruct (truth3 true (ty_of e1) (reval true en e1)), (truth3 false (ty_of e1) (reval false en e1)),
+             (truth3 true (ty_of e2) (reval true en e2)), (truth3 false (ty_of e2) (reval false en e2)); cbn; try reflexivity;
       exfalso; intuition congruence.
   - (* or *)
     apply andb_prop in Hp; destruct Hp as [H1 H2]. specialize (IHe1 H1). specialize (IHe2 H2).
-    cbn [reval]. unfold py_truthy at 1 3. cbn [ty_of].
-    destruct (ty_of e1) as [t1|] eqn:E1, (ty_of e2) as [t2|] eqn:E2; try reflexivity.
-    destruct (boolable t1 && boolable t2); [|reflexivity].
+    cbn [reval]. rewrite !py_truthy_tv.
     pose proof (truth3_T_iff true e1 (reval true en e1)) as A1. pose proof (truth3_T_iff false e1 (reval false en e1)) as A2.
     pose proof (truth3_T_iff true e2 (reval true en e2)) as B1. pose proof (truth3_T_iff false e2 (reval false en e2)) as B2.
-    rewrite E1 in A1, A2. rewrite E2 in B1, B2. rewrite IHe1 in A1. rewrite IHe2 in B1.
-    destruct (truth3 true (Some t1) (reval true en e1)), (truth3 false (Some t1) (reval false en e1)),
-             (truth3 true (Some t2) (reval true en e2)), (truth3 false (Some t2) (reval false en e2)); cbn; try reflexivity;
+    rewrite IHe1 in A1. rewrite IHe2 in B1.
+    destruct (truth3 true (ty_of e1) (reval true en e1)), (truth3 false (ty_of e1) (reval false en e1)),
+             (truth3 true (ty_of e2) (reval true en e2)), (truth3 false (ty_of e2) (reval false en e2)); cbn; try reflexivity;
       exfalso; intuition congruence.
 Qed.
